@@ -90,6 +90,11 @@ func HandleFetch(deps ServerDeps, conn net.Conn, tag string, parts []string, sta
 		items = strings.Trim(items, "()")
 	}
 
+	if HasSignedPartial(items) {
+		deps.SendResponse(conn, fmt.Sprintf("%s BAD Invalid partial range", tag))
+		return
+	}
+
 	var rows *sql.Rows
 
 	// Support for sequence ranges (e.g., 1:2, 2:4, 1:*, *)
@@ -386,15 +391,7 @@ func processFetchForMessage(deps ServerDeps, conn net.Conn, messageID, uid int64
 							var startPos, length int
 							if _, err := fmt.Sscanf(rangeSpec, "%d.%d", &startPos, &length); err == nil {
 								partialStartPos = startPos
-								if startPos < len(payload) {
-									endPos := startPos + length
-									if endPos > len(payload) {
-										endPos = len(payload)
-									}
-									payload = payload[startPos:endPos]
-								} else {
-									payload = ""
-								}
+								payload = slicePartial(payload, startPos, length)
 							}
 							// Advance parser position past the range
 							end = after + close
@@ -521,15 +518,7 @@ func processFetchForMessage(deps ServerDeps, conn net.Conn, messageID, uid int64
 			if startIdx != -1 && endIdx > startIdx {
 				partialSpec := itemsUpper[startIdx+1 : endIdx]
 				_, _ = fmt.Sscanf(partialSpec, "%d.%d", &partialStart, &partialLength)
-				if partialStart < len(body) {
-					endPos := partialStart + partialLength
-					if endPos > len(body) {
-						endPos = len(body)
-					}
-					body = body[partialStart:endPos]
-				} else {
-					body = ""
-				}
+				body = slicePartial(body, partialStart, partialLength)
 			}
 		}
 
@@ -609,6 +598,44 @@ func processFetchForMessage(deps ServerDeps, conn net.Conn, messageID, uid int64
 		deps.SendResponse(conn, responseStr)
 	} else {
 		deps.SendResponse(conn, fmt.Sprintf("* %d FETCH (FLAGS ())", seqNum))
+	}
+}
+
+// slicePartial returns the octets of data selected by a partial fetch
+// <start.length>. Per RFC 3501 section 6.4.5 a start at or beyond the end of
+// the data yields the empty string and the length is truncated to the data.
+// Signed values are refused before any message is processed (see
+// HasSignedPartial); here they select nothing, so the slice bounds are always
+// within the data and start+length cannot overflow.
+func slicePartial(data string, start, length int) string {
+	if start < 0 || length < 0 || start >= len(data) {
+		return ""
+	}
+	if length > len(data)-start {
+		length = len(data) - start
+	}
+	return data[start : start+length]
+}
+
+// HasSignedPartial reports whether a FETCH item list contains a partial
+// specifier <...> with a minus sign. Numbers are unsigned in RFC 3501, so
+// such a command is a syntax error (BAD), for FETCH and UID FETCH alike.
+func HasSignedPartial(items string) bool {
+	rest := items
+	for {
+		open := strings.Index(rest, "<")
+		if open == -1 {
+			return false
+		}
+		rest = rest[open+1:]
+		end := strings.Index(rest, ">")
+		if end == -1 {
+			return false
+		}
+		if strings.Contains(rest[:end], "-") {
+			return true
+		}
+		rest = rest[end+1:]
 	}
 }
 
